@@ -1,2 +1,269 @@
-(* C02 — placeholder while the correspondence is being brought up; replaced by the theorems. *)
-From PV Require Import C02.Spec C02.Model.
+(* C02 — The error rate counts the edits of some minimum-cost alignment; MER loss.
+   Property theorems only: each is closed by [exact <lemma>] and followed by
+   [Print Assumptions].  The harness re-checks this file on every run.
+
+   Reading guide.  Edit scripts ([op], [transforms], [cost], [lev]), [denote] (a tensor
+   column cut at its first eos), [cfg], [seq_of], [wf_tensor], [entry] are C01's.  [edits s]
+   counts the insertions, deletions and substitutions of script s ([Keep] is free).
+   [er_spec ci cd cs r h m]: some minimum-cost script turning r into h has m edits.
+   Results are [Cost m] (m edits), [Ratio m d] (m / d), [Lit z] (padding value; 0/1 convention
+   for an empty reference).  No theorem needs positive costs except the equal-cost ones;
+   the property's "positive costs" is a special case.  The batch dimension of the model is
+   a map over columns. *)
+From Coq Require Import List ZArith QArith Bool Arith.
+From PV Require Import C01.Obs C01.Spec C01.Model C01.LevFacts C01.Proofs.
+From PV Require Import C02.Spec C02.Model C02.ProofsSpec C02.ProofsModel C02.ProofsMer.
+Import ListNotations.
+Local Open Scope Z_scope.
+
+(* ---- the specification side: the checker used to judge implementation outputs ------------ *)
+
+(* [opt_counts] (textbook recursion) lists exactly the edit counts of minimum-cost scripts;
+   [er_okb] is sound and complete for "the count of some minimum-cost alignment" *)
+Theorem c02_opt_counts_iff : forall ci cd cs r h m,
+  In m (opt_counts ci cd cs r h) <-> er_spec ci cd cs r h m.
+Proof. exact opt_counts_iff. Qed.
+Print Assumptions c02_opt_counts_iff.
+
+Theorem c02_er_okb_iff : forall ci cd cs r h m,
+  er_okb ci cd cs r h m = true <->
+  exists s, transforms s r h
+            /\ (forall s', transforms s' r h -> cost ci cd cs s <= cost ci cd cs s')
+            /\ edits s = m.
+Proof. exact er_okb_iff_scripts. Qed.
+Print Assumptions c02_er_okb_iff.
+
+(* a script is minimum-cost iff its cost is C01's [lev] *)
+Theorem c02_optimal_iff_lev : forall ci cd cs r h s,
+  optimal_script ci cd cs r h s <-> transforms s r h /\ cost ci cd cs s = lev ci cd cs r h.
+Proof. exact optimal_iff_lev. Qed.
+Print Assumptions c02_optimal_iff_lev.
+
+(* "the fewest / the most edits found among minimum-cost alignments" exist and are computed *)
+Theorem c02_min_opt_edits_fewest : forall ci cd cs r h,
+  fewest_edits ci cd cs r h (min_opt_edits ci cd cs r h).
+Proof. exact min_opt_edits_fewest. Qed.
+Print Assumptions c02_min_opt_edits_fewest.
+
+Theorem c02_max_opt_edits_most : forall ci cd cs r h,
+  most_edits ci cd cs r h (max_opt_edits ci cd cs r h).
+Proof. exact max_opt_edits_most. Qed.
+Print Assumptions c02_max_opt_edits_most.
+
+(* the float judgement the harness applies to an implementation output accepts exactly the
+   values the property admits *)
+Theorem c02_spec_er_q_okb_iff : forall norm ci cd cs r h q,
+  spec_er_q_okb norm ci cd cs r h q = true <->
+  exists v, spec_er_val norm ci cd cs r h v /\ match_val 1 v q = true.
+Proof. exact spec_er_q_okb_iff. Qed.
+Print Assumptions c02_spec_er_q_okb_iff.
+
+(* ---- mechanism 1: the parallel `mistakes` table ------------------------------------------ *)
+
+(* "updated with the same argmin choices as the cost table": the cost rows kept by the
+   return_mistakes branch (where / sequential deletion loop) are, step for step, the rows of
+   the cost-only branch (min / triangular-matrix fold) that C01 is about *)
+Theorem c02_cost_rows_are_c01_rows : forall ci cd cs r h hlen excl steps,
+  (hlen <= length h)%nat ->
+  map fst (all_rm ci cd cs r h hlen excl steps) = all_rows ci cd cs r h hlen excl steps.
+Proof. exact cost_rows_are_c01_rows. Qed.
+Print Assumptions c02_cost_rows_are_c01_rows.
+
+(* while a pair is live, cell i of the state after hyp_idx = j holds the minimum cost on the
+   prefixes and the number of edits of a script that attains it *)
+Theorem c02_mistakes_invariant : forall ci cd cs r h hlen excl steps j i,
+  (hlen <= length h)%nat -> (j <= steps)%nat -> (j <= frozen hlen excl)%nat ->
+  (i <= length r)%nat ->
+  let st := nth j (all_rm ci cd cs r h hlen excl steps) ([], []) in
+  nth i (fst st) 0 = lev ci cd cs (firstn i r) (firstn j h) /\
+  exists s, transforms s (firstn i r) (firstn j h)
+            /\ cost ci cd cs s = lev ci cd cs (firstn i r) (firstn j h)
+            /\ (forall s', transforms s' (firstn i r) (firstn j h) ->
+                           cost ci cd cs s <= cost ci cd cs s')
+            /\ edits s = nth i (snd st) 0.
+Proof. exact mistakes_invariant. Qed.
+Print Assumptions c02_mistakes_invariant.
+
+(* finished pairs keep both tables (where(not_done, ., last)) *)
+Theorem c02_mistakes_freeze : forall ci cd cs r h hlen excl steps j,
+  (hlen <= length h)%nat -> (j <= steps)%nat -> (frozen hlen excl <= j)%nat ->
+  nth j (all_rm ci cd cs r h hlen excl steps) ([], [])
+  = nth (frozen hlen excl) (all_rm ci cd cs r h hlen excl steps) ([], []).
+Proof. exact rm_freeze_nth. Qed.
+Print Assumptions c02_mistakes_freeze.
+
+(* ---- "the error rate of a pair is the number of insertions, deletions and substitutions
+        along an alignment whose weighted cost is minimal" -------------------------------- *)
+Theorem c02_error_rate_optimal_alignment : forall c N ref hyp n,
+  (n < N)%nat -> wf_tensor (c_bf c) N ref -> wf_tensor (c_bf c) N hyp -> c_norm c = false ->
+  exists m s,
+    nth n (error_rate c N ref hyp) (Lit 0) = Cost m
+    /\ transforms s (denote (c_eos c) (c_incl c) (seq_of (c_bf c) n ref))
+                    (denote (c_eos c) (c_incl c) (seq_of (c_bf c) n hyp))
+    /\ (forall s', transforms s' (denote (c_eos c) (c_incl c) (seq_of (c_bf c) n ref))
+                                 (denote (c_eos c) (c_incl c) (seq_of (c_bf c) n hyp)) ->
+                   cost (c_ins c) (c_del c) (c_sub c) s <= cost (c_ins c) (c_del c) (c_sub c) s')
+    /\ cost (c_ins c) (c_del c) (c_sub c) s
+       = lev (c_ins c) (c_del c) (c_sub c)
+             (denote (c_eos c) (c_incl c) (seq_of (c_bf c) n ref))
+             (denote (c_eos c) (c_incl c) (seq_of (c_bf c) n hyp))
+    /\ edits s = m.
+Proof. exact error_rate_optimal_alignment. Qed.
+Print Assumptions c02_error_rate_optimal_alignment.
+
+(* "it never falls below the fewest nor exceeds the most edits found among minimum-cost
+   alignments" - against the computed extremes and against any lo / hi that are the extremes *)
+Theorem c02_error_rate_within_min_max : forall c N ref hyp n,
+  (n < N)%nat -> wf_tensor (c_bf c) N ref -> wf_tensor (c_bf c) N hyp -> c_norm c = false ->
+  exists m,
+    nth n (error_rate c N ref hyp) (Lit 0) = Cost m
+    /\ fewest_edits (c_ins c) (c_del c) (c_sub c)
+         (denote (c_eos c) (c_incl c) (seq_of (c_bf c) n ref))
+         (denote (c_eos c) (c_incl c) (seq_of (c_bf c) n hyp))
+         (min_opt_edits (c_ins c) (c_del c) (c_sub c)
+            (denote (c_eos c) (c_incl c) (seq_of (c_bf c) n ref))
+            (denote (c_eos c) (c_incl c) (seq_of (c_bf c) n hyp)))
+    /\ most_edits (c_ins c) (c_del c) (c_sub c)
+         (denote (c_eos c) (c_incl c) (seq_of (c_bf c) n ref))
+         (denote (c_eos c) (c_incl c) (seq_of (c_bf c) n hyp))
+         (max_opt_edits (c_ins c) (c_del c) (c_sub c)
+            (denote (c_eos c) (c_incl c) (seq_of (c_bf c) n ref))
+            (denote (c_eos c) (c_incl c) (seq_of (c_bf c) n hyp)))
+    /\ min_opt_edits (c_ins c) (c_del c) (c_sub c)
+         (denote (c_eos c) (c_incl c) (seq_of (c_bf c) n ref))
+         (denote (c_eos c) (c_incl c) (seq_of (c_bf c) n hyp))
+       <= m <=
+       max_opt_edits (c_ins c) (c_del c) (c_sub c)
+         (denote (c_eos c) (c_incl c) (seq_of (c_bf c) n ref))
+         (denote (c_eos c) (c_incl c) (seq_of (c_bf c) n hyp))
+    /\ (forall lo hi,
+          fewest_edits (c_ins c) (c_del c) (c_sub c)
+            (denote (c_eos c) (c_incl c) (seq_of (c_bf c) n ref))
+            (denote (c_eos c) (c_incl c) (seq_of (c_bf c) n hyp)) lo ->
+          most_edits (c_ins c) (c_del c) (c_sub c)
+            (denote (c_eos c) (c_incl c) (seq_of (c_bf c) n ref))
+            (denote (c_eos c) (c_incl c) (seq_of (c_bf c) n hyp)) hi ->
+          lo <= m <= hi).
+Proof. exact error_rate_within_min_max. Qed.
+Print Assumptions c02_error_rate_within_min_max.
+
+(* "and equals the plain Levenshtein distance whenever the three costs are equal":
+   with equal positive costs every minimum-cost alignment has exactly lev 1 1 1 edits ... *)
+Theorem c02_uniform_optimal_edits : forall c r h s, 0 < c ->
+  optimal_script c c c r h s -> edits s = lev 1 1 1 r h.
+Proof. exact uniform_optimal_edits. Qed.
+Print Assumptions c02_uniform_optimal_edits.
+
+(* ... and that is what is returned (through the unit-cost shortcut into C01's table);
+   [spec_value norm 1 1 1] is C01's "distance, divided by |ref| on request" at unit costs *)
+Theorem c02_error_rate_uniform_is_levenshtein : forall c N ref hyp n,
+  (n < N)%nat -> wf_tensor (c_bf c) N ref -> wf_tensor (c_bf c) N hyp ->
+  c_ins c = c_del c -> c_del c = c_sub c -> 0 < c_sub c ->
+  nth n (error_rate c N ref hyp) (Lit 0)
+  = spec_value (c_norm c) 1 1 1
+      (denote (c_eos c) (c_incl c) (seq_of (c_bf c) n ref))
+      (denote (c_eos c) (c_incl c) (seq_of (c_bf c) n hyp)).
+Proof. exact error_rate_uniform_is_levenshtein. Qed.
+Print Assumptions c02_error_rate_uniform_is_levenshtein.
+
+(* mechanism 2: "With normalisation it is that count divided by the reference length, with an
+   empty reference scoring 0 when the hypothesis is also empty and 1 otherwise" *)
+Theorem c02_error_rate_norm : forall c N ref hyp n,
+  (n < N)%nat -> wf_tensor (c_bf c) N ref -> wf_tensor (c_bf c) N hyp -> c_norm c = true ->
+  match length (denote (c_eos c) (c_incl c) (seq_of (c_bf c) n ref)) with
+  | O => nth n (error_rate c N ref hyp) (Lit 0)
+         = Lit (if (0 <? length (denote (c_eos c) (c_incl c) (seq_of (c_bf c) n hyp)))%nat
+                then 1 else 0)
+  | S _ => exists m,
+      nth n (error_rate c N ref hyp) (Lit 0)
+      = Ratio m (length (denote (c_eos c) (c_incl c) (seq_of (c_bf c) n ref)))
+      /\ er_spec (c_ins c) (c_del c) (c_sub c)
+           (denote (c_eos c) (c_incl c) (seq_of (c_bf c) n ref))
+           (denote (c_eos c) (c_incl c) (seq_of (c_bf c) n hyp)) m
+  end.
+Proof. exact error_rate_norm. Qed.
+Print Assumptions c02_error_rate_norm.
+
+(* "the per-prefix variant gives the same for each hypothesis prefix, padded past the
+   hypothesis's length" - every entry of the table, both layouts, norm or not, exclude_last
+   or not; [spec_er_val] is the judgement of the two theorems above (count of a minimum-cost
+   alignment of the reference with that prefix, normalised with the empty-reference rule) *)
+Theorem c02_prefix_error_rates_correct : forall c N ref hyp n k,
+  (n < N)%nat -> wf_tensor (c_bf c) N ref -> wf_tensor (c_bf c) N hyp ->
+  (k < time_len (c_bf c) hyp + (if c_excl c then 0 else 1))%nat ->
+  let v := entry (c_bf c) k n (prefix_error_rates c N ref hyp) in
+  if (k <? length (denote (c_eos c) (c_incl c) (seq_of (c_bf c) n hyp))
+          + (if c_excl c then 0 else 1))%nat
+  then spec_er_val (c_norm c) (c_ins c) (c_del c) (c_sub c)
+         (denote (c_eos c) (c_incl c) (seq_of (c_bf c) n ref))
+         (firstn k (denote (c_eos c) (c_incl c) (seq_of (c_bf c) n hyp))) v
+  else v = Lit (c_pad c).
+Proof. exact prefix_error_rates_correct. Qed.
+Print Assumptions c02_prefix_error_rates_correct.
+
+(* ---- mechanism 3: "The minimum-error-rate loss equals the softmax-weighted (optionally
+        mean-subtracted) error rates of the supplied samples" ------------------------------
+   w = softmax(log_probs, 1) is an input.  [seq3_of bf n m hyp] is sample m of batch element
+   n in either layout, [ref_seq] its reference (row n of a 2-D ref, entry (n, m) of a 3-D
+   one); [er_nm n m] is the model's error rate for exactly that pair, [mu_n n] the mean over
+   the M samples of element n, [loss_nm n m] = (er_nm n m [- mu_n n]) * w[n][m], [loss_mat]
+   the N x M matrix of these.  So the flattening n*M + m, the expansion of a 2-D reference and
+   .view(N, M) line up in both layouts, for every reduction. *)
+Theorem c02_mer_loss_formula : forall c sub_avg N M w ref hyp,
+  (2 <= M)%nat -> wf3 (c_bf c) N M hyp -> wf_ref (c_bf c) N M ref -> wf_w N M w ->
+  forall red,
+  mer_loss c sub_avg red N M w ref hyp =
+  match red with
+  | RNone => MMat (loss_mat c sub_avg N M w ref hyp)
+  | RSum => MScalar (qsum (map qsum (loss_mat c sub_avg N M w ref hyp)))
+  | RMean => MScalar (qsum (map qsum (loss_mat c sub_avg N M w ref hyp)) / (Z.of_nat (N * M) # 1))
+  end.
+Proof. exact mer_loss_formula. Qed.
+Print Assumptions c02_mer_loss_formula.
+
+(* the error rate entering the loss for sample (n, m) is one the property admits for it *)
+Theorem c02_mer_er_admitted : forall c ref hyp n m,
+  spec_er_val (c_norm c) (c_ins c) (c_del c) (c_sub c)
+    (denote (c_eos c) (c_incl c) (ref_seq (c_bf c) n m ref))
+    (denote (c_eos c) (c_incl c) (seq3_of (c_bf c) n m hyp))
+    (pair_er c (ref_seq (c_bf c) n m ref) (seq3_of (c_bf c) n m hyp)).
+Proof. exact mer_er_admitted. Qed.
+Print Assumptions c02_mer_er_admitted.
+
+(* "all (N, M>=2) sample sets": fewer than two samples is an error *)
+Theorem c02_mer_loss_too_few_samples : forall c sub_avg red N M w ref hyp,
+  (M < 2)%nat -> mer_loss c sub_avg red N M w ref hyp = MErr.
+Proof. exact mer_loss_too_few_samples. Qed.
+Print Assumptions c02_mer_loss_too_few_samples.
+
+(* non-vacuity: a ragged batch-first batch with eos = 9 (eos at position 0 = empty reference,
+   garbage after eos, a hypothesis without eos), unequal costs (3/4, 1/4, 1) for which
+   minimum-cost alignments with different numbers of edits exist; the code's tie-breaking
+   returns the largest admissible count for pair 0 ({2,3} -> 3), a middle one for pair 2
+   ({3,4,5} under costs (1/4, 3/4, 1) -> 4); the hypotheses of the theorems hold *)
+Example c02_nonvacuous :
+  let c := mkCfg (Some 9) false false true 3 1 4 (-100) false in
+  let ref := [[1; 1; 2; 9; 5]; [9; 1; 1; 9; 9]; [1; 2; 0; 0; 9]] in
+  let hyp := [[2; 1; 9; 7]; [2; 2; 2; 2]; [0; 2; 1; 9]] in
+  wf_tensor (c_bf c) 3 ref /\ wf_tensor (c_bf c) 3 hyp
+  /\ denote (c_eos c) (c_incl c) (seq_of true 0 ref) = [1; 1; 2]
+  /\ denote (c_eos c) (c_incl c) (seq_of true 1 ref) = []
+  /\ denote (c_eos c) (c_incl c) (seq_of true 1 hyp) = [2; 2; 2; 2]
+  /\ opt_counts 3 1 4 [1; 1; 2] [2; 1] = [3; 2]
+  /\ error_rate c 3 ref hyp = [Cost 3; Cost 4; Cost 4]
+  /\ opt_counts 1 3 4 [1; 2; 0; 0] [0; 2; 1] = [5; 4; 3]
+  /\ error_rate (mkCfg (Some 9) false true true 1 3 4 0 false) 3 ref hyp
+     = [Ratio 3 3; Lit 1; Ratio 4 4]
+  /\ prefix_error_rates (mkCfg (Some 9) true false true 3 1 4 (-100) true) 3 ref hyp
+     = [[Cost 4; Cost 3; Cost 3; Lit (-100)]; [Cost 1; Cost 1; Cost 2; Cost 3];
+        [Cost 5; Cost 4; Cost 4; Cost 4]]
+  /\ mer_loss (mkCfg (Some 9) false true true 3 1 4 0 false) true RNone 1 2
+       [[1 # 4; 3 # 4]] (inl [[1; 1; 2; 9]]) [[[2; 1; 9]; [1; 1; 2]]]
+     = MMat (loss_mat (mkCfg (Some 9) false true true 3 1 4 0 false) true 1 2
+               [[1 # 4; 3 # 4]] (inl [[1; 1; 2; 9]]) [[[2; 1; 9]; [1; 1; 2]]]).
+Proof.
+  cbv zeta.
+  split; [split; [reflexivity|exists 5%nat; intros row [<-|[<-|[<-|[]]]]; reflexivity]|].
+  split; [split; [reflexivity|exists 4%nat; intros row [<-|[<-|[<-|[]]]]; reflexivity]|].
+  repeat (split; [vm_compute; reflexivity|]). vm_compute; reflexivity.
+Qed.
